@@ -34,10 +34,16 @@ Definition copy_case : Type :=
 Definition model_of (c : copy_case) : list op * option ecls :=
   let '(cf, dst, gl, srcs, fs0, tab, _, _) := c in
   let '(pr, rc, fo, hn) := cf in
-  let srcs' := match gl with Some dir => glob_star dir srcs | None => srcs end in
-  let '(ops, _, r) := begin_copy (fun p => table_get p tab) (mkcfg pr rc fo hn)
-                                 (S (srcs_size srcs')) dst srcs' fs0 in
-  (ops, r).
+  let orc := fun p => table_get p tab in
+  match gl with
+  | None =>
+      let '(ops, _, r) := begin_copy orc (mkcfg pr rc fo hn) (S (srcs_size srcs)) dst srcs fs0 in
+      (ops, r)
+  | Some dir =>
+      (* a glob error handed to the error handler carries no destination path: recorded as OErr _ [] *)
+      let '(ge, (ops, _, r)) := begin_copy_glob orc (mkcfg pr rc fo hn) true dst dir srcs fs0 in
+      (match ge with Some e => [OErr e []] | None => [] end ++ ops, r)
+  end.
 
 Definition chk_copy_plan (c : copy_case) : bool :=
   let '(_, _, _, _, _, _, got, graised) := c in
